@@ -61,64 +61,64 @@ Proof. intros. unfold list_dir. rewrite filter_In. tauto. Qed.
 Ltac prim_unfold := unfold do_exists, do_listdir, do_stat, do_delete, do_read, do_open, tick in *; cbn [fst snd] in *.
 
 Lemma do_exists_store : forall o g k r g', do_exists o g k = (r, g') -> g_store g' = g_store g.
-Proof. intros o g k r g' H. prim_unfold. destruct (o (g_calls g)) as [[|]|]; inversion H; reflexivity. Qed.
+Proof. intros o g k r g' H. prim_unfold. destruct (o (g_calls g)) as [[| |]|]; inversion H; reflexivity. Qed.
 
 Lemma do_exists_true : forall o g k g', do_exists o g k = (Some true, g') -> exists ob, lookup k (g_store g) = Some ob.
 Proof.
-  intros o g k g' H. prim_unfold. destruct (o (g_calls g)) as [[|]|]; inversion H.
+  intros o g k g' H. prim_unfold. destruct (o (g_calls g)) as [[| |]|]; inversion H.
   destruct (lookup k (g_store g)); [eauto|discriminate].
 Qed.
 
 Lemma do_open_store : forall o g k r g', do_open o g k = (r, g') -> g_store g' = g_store g.
-Proof. intros o g k r g' H. prim_unfold. destruct (o (g_calls g)) as [[|]|]; inversion H; reflexivity. Qed.
+Proof. intros o g k r g' H. prim_unfold. destruct (o (g_calls g)) as [[| |]|]; inversion H; reflexivity. Qed.
 
 Lemma do_read_store : forall o g k r g', do_read o g k = (r, g') -> g_store g' = g_store g.
-Proof. intros o g k r g' H. prim_unfold. destruct (o (g_calls g)) as [[|]|]; inversion H; reflexivity. Qed.
+Proof. intros o g k r g' H. prim_unfold. destruct (o (g_calls g)) as [[| |]|]; inversion H; reflexivity. Qed.
 
 Lemma do_stat_store : forall o g k r g', do_stat o g k = (r, g') -> g_store g' = g_store g.
-Proof. intros o g k r g' H. prim_unfold. destruct (o (g_calls g)) as [[|]|]; inversion H; reflexivity. Qed.
+Proof. intros o g k r g' H. prim_unfold. destruct (o (g_calls g)) as [[| |]|]; inversion H; reflexivity. Qed.
 
 Lemma do_listdir_store : forall o g p r g', do_listdir o g p = (r, g') -> g_store g' = g_store g.
-Proof. intros o g p r g' H. prim_unfold. destruct (o (g_calls g)) as [[|]|]; inversion H; reflexivity. Qed.
+Proof. intros o g p r g' H. prim_unfold. destruct (o (g_calls g)) as [[| |]|]; inversion H; reflexivity. Qed.
 
-Lemma do_open_some : forall o g k c g', do_open o g k = (Some c, g') ->
+Lemma do_open_some : forall o g k c g', do_open o g k = (OContent c, g') ->
   c = CGarbage \/ exists ob, lookup k (g_store g) = Some ob /\ body ob = c.
 Proof.
-  intros o g k c g' H. prim_unfold. destruct (o (g_calls g)) as [[|]|]; inversion H; auto.
+  intros o g k c g' H. prim_unfold. destruct (o (g_calls g)) as [[| |]|]; inversion H; auto.
   destruct (lookup k (g_store g)) as [ob|]; simpl in *; [|discriminate]. right. exists ob. split; congruence.
 Qed.
 
 Lemma do_read_some : forall o g k c g', do_read o g k = (Some c, g') ->
   c = CGarbage \/ exists ob, lookup k (g_store g) = Some ob /\ body ob = c.
 Proof.
-  intros o g k c g' H. prim_unfold. destruct (o (g_calls g)) as [[|]|]; inversion H; auto.
+  intros o g k c g' H. prim_unfold. destruct (o (g_calls g)) as [[| |]|]; inversion H; auto.
   destruct (lookup k (g_store g)) as [ob|]; simpl in *; [|discriminate]. right. exists ob. split; congruence.
 Qed.
 
 Lemma do_stat_some : forall o g k t g', do_stat o g k = (Some t, g') ->
   exists ob, lookup k (g_store g) = Some ob /\ mtime ob = t.
 Proof.
-  intros o g k t g' H. prim_unfold. destruct (o (g_calls g)) as [[|]|]; inversion H.
+  intros o g k t g' H. prim_unfold. destruct (o (g_calls g)) as [[| |]|]; inversion H.
   destruct (lookup k (g_store g)) as [ob|]; simpl in *; [|discriminate]. exists ob. split; congruence.
 Qed.
 
 Lemma do_delete_none : forall o g k g', do_delete o g k = (None, g') -> g_store g' = g_store g.
-Proof. intros o g k g' H. prim_unfold. destruct (o (g_calls g)) as [[|]|]; inversion H; reflexivity. Qed.
+Proof. intros o g k g' H. prim_unfold. destruct (o (g_calls g)) as [[| |]|]; inversion H; reflexivity. Qed.
 
 Lemma do_delete_some : forall o g k u g', do_delete o g k = (Some u, g') -> g_store g' = remove_key k (g_store g).
-Proof. intros o g k u g' H. prim_unfold. destruct (o (g_calls g)) as [[|]|]; inversion H; reflexivity. Qed.
+Proof. intros o g k u g' H. prim_unfold. destruct (o (g_calls g)) as [[| |]|]; inversion H; reflexivity. Qed.
 
 Lemma do_listdir_some : forall o g p ks g', do_listdir o g p = (Some ks, g') ->
   forall k, In k ks -> In k (list_dir p (g_store g)) \/ k = "../x".
 Proof.
-  intros o g p ks g' H k Hk. prim_unfold. destruct (o (g_calls g)) as [[|]|]; inversion H; subst; auto.
+  intros o g p ks g' H k Hk. prim_unfold. destruct (o (g_calls g)) as [[| |]|]; inversion H; subst; auto.
   apply in_app_or in Hk. destruct Hk as [Hk|[Hk|[]]]; auto.
 Qed.
 
 Lemma do_listdir_nofault_or_bad : forall o g p ks g', do_listdir o g p = (Some ks, g') ->
   forall k, In k (list_dir p (g_store g)) -> In k ks.
 Proof.
-  intros o g p ks g' H k Hk. prim_unfold. destruct (o (g_calls g)) as [[|]|]; inversion H; subst; auto.
+  intros o g p ks g' H k Hk. prim_unfold. destruct (o (g_calls g)) as [[| |]|]; inversion H; subst; auto.
   apply in_or_app. auto.
 Qed.
 
@@ -126,17 +126,16 @@ Qed.
 Definition holds (w : want) (st : store) (k : key) (xs : list string) : Prop :=
   match w with WList => list_at st k xs | WManifest => manifest_at st k xs end.
 
-Lemma avro_parse_ok : forall w ob xs, avro_parse w (body ob) = AvOk xs ->
-  match w with WList => body ob = CList FAvro xs | WManifest => body ob = CManifest FAvro xs end.
-Proof. intros w ob xs H. destruct w, (body ob) as [|[|] ?|[|] ?|?|]; simpl in H; inversion H; reflexivity. Qed.
+Definition as_w (w : want) : content -> option (list string) := match w with WList => as_list | WManifest => as_manifest end.
 
-Lemma json_parse_ok : forall w ob xs, json_parse w (body ob) = Some xs ->
-  match w with WList => body ob = CList FJson xs | WManifest => body ob = CManifest FJson xs end.
-Proof. intros w ob xs H. destruct w, (body ob) as [|[|] ?|[|] ?|?|]; simpl in H; inversion H; reflexivity. Qed.
+Lemma avro_parse_ok : forall w c xs, avro_parse w c = AvOk xs -> as_w w c = Some xs.
+Proof. intros w c xs H. destruct w, c as [|[|] ?|[|] ?|?| | |]; simpl in H; inversion H; reflexivity. Qed.
 
-Lemma holds_intro : forall w st k ob xs f, lookup k st = Some ob ->
-  match w with WList => body ob = CList f xs | WManifest => body ob = CManifest f xs end -> holds w st k xs.
-Proof. intros w st k ob xs f H1 H2. destruct w; exists ob, f; auto. Qed.
+Lemma json_parse_ok : forall w c xs, json_parse w c = Some xs -> as_w w c = Some xs.
+Proof. intros w c xs H. destruct w, c as [|[|] ?|[|] ?|?| | |]; simpl in H; inversion H; reflexivity. Qed.
+
+Lemma holds_intro : forall w st k ob xs, lookup k st = Some ob -> as_w w (body ob) = Some xs -> holds w st k xs.
+Proof. intros w st k ob xs H1 H2. destruct w; exists ob; auto. Qed.
 
 Lemma read_fallback_sound : forall w o g k xs g', read_fallback w o g k = (Some xs, g') ->
   holds w (g_store g) k xs /\ g_store g' = g_store g.
@@ -155,16 +154,17 @@ Proof.
   destruct (do_exists o g k) as [[[|]|] g1] eqn:E1; try discriminate.
   destruct (do_exists o g1 k) as [[[|]|] g2] eqn:E2; try discriminate.
   pose proof (do_exists_store _ _ _ _ _ E1) as S1. pose proof (do_exists_store _ _ _ _ _ E2) as S2.
-  destruct (do_open o g2 k) as [[c|] g3] eqn:E3.
-  - pose proof (do_open_store _ _ _ _ _ E3) as S3.
+  destruct (do_open o g2 k) as [[| |c] g3] eqn:E3.
+  3:{ pose proof (do_open_store _ _ _ _ _ E3) as S3.
     destruct (avro_parse w c) as [ys| |] eqn:EA; try discriminate.
     + inversion H; subst. split; [|congruence].
       apply do_open_some in E3. destruct E3 as [->|[ob [L B]]].
       * destruct w; discriminate.
       * subst c. rewrite S2, S1 in L. eapply holds_intro; eauto. apply avro_parse_ok. assumption.
-    + apply read_fallback_sound in H. destruct H as [H1 H2]. rewrite S3, S2, S1 in *. auto.
+    + apply read_fallback_sound in H. destruct H as [H1 H2]. rewrite S3, S2, S1 in *. auto. }
   - pose proof (do_open_store _ _ _ _ _ E3) as S3.
     apply read_fallback_sound in H. destruct H as [H1 H2]. rewrite S3, S2, S1 in *. auto.
+  - discriminate.
 Qed.
 
 Lemma read_one_store : forall w o g k r g', read_one w o g k = (r, g') -> g_store g' = g_store g.
@@ -172,7 +172,7 @@ Proof.
   intros w o g k r g' H. unfold read_one, read_fallback in H.
   repeat match type of H with
   | context [do_exists ?o ?g ?k] => let E := fresh "E" in destruct (do_exists o g k) as [[[|]|] ?] eqn:E; apply do_exists_store in E
-  | context [do_open ?o ?g ?k] => let E := fresh "E" in destruct (do_open o g k) as [[?|] ?] eqn:E; apply do_open_store in E
+  | context [do_open ?o ?g ?k] => let E := fresh "E" in destruct (do_open o g k) as [[| |?] ?] eqn:E; apply do_open_store in E
   | context [do_read ?o ?g ?k] => let E := fresh "E" in destruct (do_read o g k) as [[?|] ?] eqn:E; apply do_read_store in E
   | context [avro_parse ?w ?c] => destruct (avro_parse w c)
   end; inversion H; subst; congruence.
@@ -208,7 +208,7 @@ Qed.
 
 Lemma holds_fun : forall w st k xs ys, holds w st k xs -> holds w st k ys -> xs = ys.
 Proof.
-  intros w st k xs ys H1 H2. destruct w; destruct H1 as [o1 [f1 [L1 B1]]], H2 as [o2 [f2 [L2 B2]]]; congruence.
+  intros w st k xs ys H1 H2. destruct w; destruct H1 as [o1 [L1 B1]], H2 as [o2 [L2 B2]]; congruence.
 Qed.
 
 Lemma in_norm_set : forall tp ps r, In r ps -> nonempty r = true -> In (normalize_path tp r) (norm_set tp ps).
@@ -258,7 +258,7 @@ Proof.
   assert (xs = ms) by (eapply (holds_fun WList); eauto). subst xs.
   rewrite <- (norm_wf_ref tp m).
   - apply in_norm_set; auto.
-  - apply meta_ref_wf. destruct H3 as [ob [f [L B]]]. eapply wf_lists; eauto.
+  - apply meta_ref_wf. destruct H3 as [ob [L B]]. eapply wf_lists; eauto.
 Qed.
 
 Lemma manifests_exact : forall k, In k (norm_set tp mpaths) -> ref_manifest snaps st k.
@@ -267,7 +267,7 @@ Proof.
   destruct (read_all_sound _ _ _ _ _ _ RL) as [_ B]. rewrite Hg in B.
   destruct (B m H1) as [kl [xs [P [Q R]]]]. apply lists_exact in P. destruct P as [l [P1 [P2 ->]]].
   exists l, xs, m. repeat split; auto.
-  apply norm_wf_ref. apply meta_ref_wf. destruct Q as [ob [f [L Bd]]]. eapply wf_lists; eauto.
+  apply norm_wf_ref. apply meta_ref_wf. destruct Q as [ob [L Bd]]. eapply wf_lists; eauto.
 Qed.
 
 Variables (g2 : gst) (entries : list string).
@@ -288,7 +288,7 @@ Proof.
   assert (xs = es) by (eapply (holds_fun WManifest); eauto). subst xs.
   rewrite <- (norm_wf_ref tp e).
   - apply in_map. auto.
-  - apply data_ref_wf. destruct H6 as [ob [f [L B]]]. eapply wf_manifests; eauto.
+  - apply data_ref_wf. destruct H6 as [ob [L B]]. eapply wf_manifests; eauto.
 Qed.
 
 Lemma data_exact : forall k, In k (map (normalize_path tp) entries) -> ref_data snaps st k.
@@ -298,16 +298,16 @@ Proof.
   destruct (B e H1) as [km [xs [P [Q R]]]]. apply manifests_exact in P.
   destruct P as [l [ms [m [P1 [P2 [P3 [P4 [P5 ->]]]]]]]].
   exists l, ms, m, xs, e. repeat split; auto.
-  apply norm_wf_ref. apply data_ref_wf. destruct Q as [ob [f [L Bd]]]. eapply wf_manifests; eauto.
+  apply norm_wf_ref. apply data_ref_wf. destruct Q as [ob [L Bd]]. eapply wf_manifests; eauto.
 Qed.
 
 (* referenced keys by class, and where they live *)
 Lemma ref_list_meta : forall k, ref_list snaps k -> startswith "metadata/" k = true.
 Proof. intros k [l [H1 [H2 ->]]]. eapply wf_snaps; eauto. Qed.
 Lemma ref_manifest_meta : forall k, ref_manifest snaps st k -> startswith "metadata/" k = true.
-Proof. intros k [l [ms [m [H1 [H2 [[ob [f [L B]]] [H4 [H5 ->]]]]]]]]. eapply wf_lists; eauto. Qed.
+Proof. intros k [l [ms [m [H1 [H2 [[ob [L B]] [H4 [H5 ->]]]]]]]]. eapply wf_lists; eauto. Qed.
 Lemma ref_data_data : forall k, ref_data snaps st k -> startswith "data/" k = true.
-Proof. intros k [l [ms [m [es [e [H1 [H2 [H3 [H4 [H5 [[ob [f [L B]]] [H7 ->]]]]]]]]]]]]. eapply wf_manifests; eauto. Qed.
+Proof. intros k [l [ms [m [es [e [H1 [H2 [H3 [H4 [H5 [[ob [L B]] [H7 ->]]]]]]]]]]]]. eapply wf_manifests; eauto. Qed.
 End Reach.
 
 Lemma data_meta_disjoint : forall k, startswith "data/" k = true -> startswith "metadata/" k = true -> False.
@@ -328,7 +328,7 @@ Proof. intros a b L H mk ob t H1. apply L in H1. eapply H; eauto. Qed.
 Lemma marker_denotes_relative : forall st mk ob k, markers_wf st -> lookup mk st = Some ob -> is_marker_key mk ->
   marker_denotes mk ob k -> table_relative k.
 Proof.
-  intros st mk ob k W L M D. unfold marker_denotes in D. destruct (body ob) as [| | |[t|]|] eqn:B;
+  intros st mk ob k W L M D. unfold marker_denotes in D. destruct (body ob) as [| | |[t|]| | |] eqn:B;
     try (eapply name_candidates_relative; eauto; fail).
   destruct (nonempty t) eqn:N; [|eapply name_candidates_relative; eauto].
   subst k. eapply name_candidates_relative. eapply W; eauto.
@@ -345,24 +345,24 @@ Proof.
   - pose proof (do_read_store _ _ _ _ _ E) as S. apply do_read_some in E.
     assert (FB: forall k, marker_denotes mk ob k -> In k (marker_fallback (basename mk))).
     { intros k D. rewrite marker_fallback_covers. unfold marker_denotes in D.
-      destruct (body ob) as [| | |[t|]|] eqn:B; auto. destruct (nonempty t) eqn:N; auto. subst k. eapply W; eauto. }
+      destruct (body ob) as [| | |[t|]| | |] eqn:B; auto. destruct (nonempty t) eqn:N; auto. subst k. eapply W; eauto. }
     destruct E as [->|[ob' [L' B']]].
     + inversion H; subst. auto.
     + rewrite L in L'. inversion L'; subst ob'. subst c.
-      destruct (body ob) as [| | |[t|]|] eqn:B; try (inversion H; subst; auto; fail).
+      destruct (body ob) as [| | |[t|]| | |] eqn:B; try (inversion H; subst; auto; fail).
       destruct (nonempty t) eqn:N; inversion H; subst; auto. split; [exact S|].
       intros k D. unfold marker_denotes in D. rewrite B, N in D. subst k. left.
       apply norm_wf_ref. unfold wf_ref. eapply name_candidates_relative. eapply W; eauto.
   - pose proof (do_read_store _ _ _ _ _ E) as S. inversion H; subst. split; [exact S|].
     intros k D. rewrite marker_fallback_covers. unfold marker_denotes in D.
-    destruct (body ob) as [| | |[t|]|] eqn:B; auto. destruct (nonempty t) eqn:N; auto. subst k. eapply W; eauto.
+    destruct (body ob) as [| | |[t|]| | |] eqn:B; auto. destruct (nonempty t) eqn:N; auto. subst k. eapply W; eauto.
 Qed.
 
 Lemma marker_targets_store : forall tp o g nm bn T g', marker_targets tp o g nm bn = (T, g') -> g_store g' = g_store g.
 Proof.
   intros tp o g nm bn T g' H. unfold marker_targets in H.
   destruct (do_read o g nm) as [[c|] g1] eqn:E; apply do_read_store in E.
-  - destruct c as [| | |[t|]|]; try (inversion H; subst; exact E). destruct (nonempty t); inversion H; subst; exact E.
+  - destruct c as [| | |[t|]| | |]; try (inversion H; subst; exact E). destruct (nonempty t); inversion H; subst; exact E.
   - inversion H; subst; exact E.
 Qed.
 
@@ -677,9 +677,11 @@ Proof.
   constructor.
   - apply nodupb_sound. exact H1.
   - intros l Hl Hn. specialize (H2 l Hl). rewrite Hn in H2. exact H2.
-  - intros k ob f ms m L B Hm Hn. specialize (OBJ k ob L). unfold wf_objb in OBJ. rewrite B in OBJ.
+  - intros k ob ms m L B Hm Hn. specialize (OBJ k ob L). unfold wf_objb in OBJ.
+    destruct (body ob); simpl in B; inversion B; subst; [|contradiction].
     rewrite forallb_forall in OBJ. specialize (OBJ m Hm). rewrite Hn in OBJ. exact OBJ.
-  - intros k ob f es e L B He. specialize (OBJ k ob L). unfold wf_objb in OBJ. rewrite B in OBJ.
+  - intros k ob es e L B He. specialize (OBJ k ob L). unfold wf_objb in OBJ.
+    destruct (body ob); simpl in B; inversion B; subst; [|contradiction].
     rewrite forallb_forall in OBJ. exact (OBJ e He).
   - intros mk ob t L M B Hn. specialize (OBJ mk ob L). unfold wf_objb in OBJ. rewrite B in OBJ.
     apply is_marker_keyb_iff in M. rewrite M, Hn in OBJ. simpl in OBJ. apply str_mem_In. exact OBJ.
